@@ -11,6 +11,7 @@ MODULE_LABEL = {
     "collections": "benign", "copy": "benign", "importlib": "benign", "json": "benign", "re": "benign", "typing": "benign",
     "shlex": "benign", "gzip": "benign", "io": "benign", "_io": "benign", "_codecs": "benign", "copyreg": "benign",
     "operator": "benign", "functools": "benign", "datetime": "benign", "pickle": "benign", "runpy": "benign",
+    "commands": "nonstd", "popen2": "nonstd", "Queue": "nonstd",  # standard library of Python 2.7 only
     "vp_sink": "nonstd", "numpy": "nonstd", "torch.storage": "nonstd", "torch": "nonstd", "vp_objs": "nonstd",
     "numpy.testing._private.utils": "nonstd", "m": "nonstd", "transformers": "nonstd",
 }
@@ -26,6 +27,7 @@ VOCAB = [
     ("socket", "create_connection"), ("shutil", "rmtree"), ("urllib", "request"), ("urllib.request", "urlopen"),
     ("torch.hub", "load"), ("dill", "loads"), ("code", "interact"), ("os.path", "join"), ("dill._dill", "_load_type"),
     ("collections", "OrderedDict"), ("io", "BytesIO"), ("_codecs", "encode"), ("copyreg", "_reconstructor"),
+    ("commands", "getoutput"), ("popen2", "popen2"),
     ("vp_sink", "hit"), ("numpy", "dtype"), ("torch.storage", "_load_from_bytes"),
 ]
 
